@@ -131,3 +131,35 @@ def mode_mentions(text):
     for m in re.finditer(r'(?<![A-Za-z0-9_])(Osu|Taiko|Catch|Mania)(?=[A-Z]\w*|\b)', text):
         out.add(m.group(1).lower())
     return out
+
+
+def delta_fields(v, self_param=1):
+    """for a value derived from parameter `self_param` (struct update `Self { f: x, ..self }` or field
+    assignment followed by returning self): {field: new value}; None if v is not derived from it"""
+    v = prov.strip(v, names={'clone'})
+    if v[0] == 'param' and v[1] == self_param:
+        return {}
+    if v[0] == 'update':
+        base = delta_fields(v[1], self_param)
+        if base is None:
+            return None
+        out = dict(base)
+        for p, x in v[2].items():
+            if len(p) == 1:
+                out[p[0]] = x
+            else:
+                out['.'.join(p)] = x
+        return out
+    if v[0] == 'mut':
+        return delta_fields(v[1], self_param)
+    if v[0] == 'agg' and v[1] == 'adt':
+        out = {}
+        derived = False
+        for f, x in v[4].items():
+            pp = as_param_path(x, through_calls=False)
+            if pp == (self_param, (f,)):
+                derived = True
+                continue
+            out[f] = x
+        return out if derived or not v[4] else (out if len(out) < len(v[4]) else None)
+    return None
